@@ -97,8 +97,13 @@ class CallMixin:
       if name in ('__name__', '__qualname__'):
         return VStr(v.name)
       raise Unsupported(f'function attribute {name}')
-    if isinstance(v, VInt) and name == 'astype':
-      return VFn('astype', impl=lambda it, a, k, _v=v: _v)
+    if isinstance(v, (VInt, VBool, VReal)):
+      return self.scalar_attr(v, name)
+    if isinstance(v, VStr):
+      if name in ('format', 'join', 'lower', 'upper', 'strip'):
+        self.dropped.add('string formatting')
+        return VFn(f'str.{name}', impl=lambda it, a, k: VStr(None))
+      raise Unsupported(f'str method {name}')
     raise Unsupported(f'getattr {name} on {type(v).__name__}')
 
   def slice_indices(self, sl, n):
